@@ -44,6 +44,8 @@ type Opts struct {
 	Endpoints      []EP
 	ModelDiscovery bool
 	Mutate         func(c *config.Config)
+	// LogHook, if set, is called for every record logged through a request-scoped logger (gate engine).
+	LogHook func(requestID, msg string)
 }
 
 func FreePort() int {
@@ -58,6 +60,9 @@ func intp(i int) *int { return &i }
 // Boot starts olla with production wiring. cwd must be the repository root (shipped profiles).
 func Boot(o Opts) (*Olla, error) {
 	lg := hutil.QuietLogger()
+	if o.LogHook != nil {
+		lg = hutil.HookLogger(o.LogHook)
+	}
 	cfg := config.DefaultConfig()
 	cfg.Server.Host = "127.0.0.1"
 	cfg.Server.Port = FreePort()
